@@ -30,6 +30,7 @@ class ConcreteCtx:
     def __init__(self, model):
         self.model = model
         self.counters = {}
+        self.trace = []            # ghost events recorded by stub objects during a native replay
 
     def fresh_name(self, base):
         n = self.counters.get(base, 0)
